@@ -245,3 +245,66 @@ def rule_inventory(ctx):
 
 
 RULES.append(("C16.g", "state-mutation inventory: no new sender-handle / close site on a model's mailbox (a sub-model's mailbox must stay open until it runs)", rule_inventory))
+
+
+def rule_shared_links(ctx):
+    """An init that sends on a port shared between clones (a sub-model holding a clone of its parent's output) reaches the
+    connections made through any clone: the CachedRwLock epoch protocol (C14.d)."""
+    from . import c14
+    c14.rule_d(ctx)
+
+
+RULES.append(("C16.h", "messages sent during init through a cloned port see the connections made on any clone (C14.d)", rule_shared_links))
+
+
+def _bounds(b, o, depth=0):
+    """(lower, upper) bound of an integer origin built from constants, the function argument, clamp / max / min."""
+    from ..masks import const_eval
+    INF = 1 << 70
+    if depth > 6:
+        return (0, INF)
+    v = const_eval(o)
+    if v is not None:
+        return (v, v)
+    if isinstance(o, tuple) and o and o[0] == "call":
+        s = Site(b, o[1], TERM)
+        nm = last_seg(o[2])
+        args = s.args()
+
+        def ab(i):
+            os_ = b.origins(args[i], s)
+            if not os_:
+                return (0, INF)
+            bs = [_bounds(b, x, depth + 1) for x in os_]
+            return (min(x[0] for x in bs), max(x[1] for x in bs))
+        if nm == "clamp" and len(args) == 3:
+            lo, hi = ab(1), ab(2)
+            return (lo[0], hi[1])
+        if nm == "max" and len(args) == 2:
+            x, y = ab(0), ab(1)
+            return (max(x[0], y[0]), max(x[1], y[1]))
+        if nm == "min" and len(args) == 2:
+            x, y = ab(0), ab(1)
+            return (min(x[0], y[0]), min(x[1], y[1]))
+    return (0, INF)
+
+
+def rule_thread_count(ctx):
+    """'all thread counts': whatever count is requested, the executor is built with at least one worker (else no init ever runs)
+    and at most usize::BITS workers (the pool manager keeps one bit per worker)."""
+    P = ctx.prog
+    n = 0
+    for b in P.all_bodies():
+        if "::tests" in b.name:
+            continue
+        for s in b.calls(r"^executor::Executor::new_multi_threaded$"):
+            n += 1
+            os_ = b.origins(s.args()[0], s)
+            bs = [_bounds(b, x) for x in os_]
+            ok = bool(bs) and all(lo >= 1 and hi <= 64 for lo, hi in bs)
+            ctx.ob("thread-count-clamped|%s" % K.owner_fn(P, b).name, ok,
+                   "the worker count handed to the multi-threaded executor is bounded to 1..=usize::BITS (bounds found: %s)" % bs, [s])
+    ctx.ob("floor|multi-threaded-executor-sites", n >= 1, "expected >= 1 construction site of the multi-threaded executor (found %d)" % n)
+
+
+RULES.append(("C16.i", "the executor is built with 1..=usize::BITS workers whatever count is requested", rule_thread_count))
